@@ -3,6 +3,7 @@ package rules
 import (
 	"fmt"
 	"go/types"
+	"regexp"
 	"strings"
 
 	"golang.org/x/tools/go/ssa"
@@ -22,6 +23,10 @@ type stackFacts struct {
 	popLIFO, popShrinks, popDeletes            string
 	pushPaths, popPaths                        int
 }
+
+// fileNameOf: the term of <scanner>.file.Name() (or <scanner>.File().Name()) with nothing wrapped around it: the
+// method Name of the dependency's File applied to the file the scanner's field holds.
+var fileNameOf = regexp.MustCompile(`^\([^()]*fs\.File\)\.Name\(L\(\*\(L\((.+)\.[A-Za-z_0-9]+\)@\d+\)\)@\d+\)@\d+$`)
 
 func (c *Ctx) stackFacts() *stackFacts {
 	if c.stackF != nil {
@@ -121,8 +126,8 @@ func (c *Ctx) stackFacts() *stackFacts {
 			continue
 		}
 		key := o.Events[guard].Args[1].Term()
-		if !strings.Contains(key, "scanner.") {
-			f.pushKey = "the name looked up is not derived from the scanner that is pushed (" + key + ")"
+		if !fileNameOf.MatchString(key) || !strings.Contains(key, "(L(scanner.") {
+			f.pushKey = "the name looked up is not the Name() of the file of the scanner that is pushed, unchanged (" + key + "): two different files can collide, or one file can be known under two names"
 		}
 		ins := false
 		for i, e := range o.Events {
@@ -170,7 +175,8 @@ func (c *Ctx) stackFacts() *stackFacts {
 			if e.Kind == "store" && e.Loc == "s."+stackField && e.Args[0].Term() == fmt.Sprintf("slice(%s,,%s)", stackT, last) {
 				shr = true
 			}
-			if e.Kind == "delete" && len(e.Args) == 2 && strings.HasPrefix(e.Args[0].Term(), "L(s."+setField+")@") && strings.Contains(e.Args[1].Term(), "L("+top+"."+itemScanner+")@") {
+			if e.Kind == "delete" && len(e.Args) == 2 && strings.HasPrefix(e.Args[0].Term(), "L(s."+setField+")@") &&
+				fileNameOf.MatchString(e.Args[1].Term()) && strings.Contains(e.Args[1].Term(), "(L(L("+top+"."+itemScanner+")@") {
 				del = true
 			}
 		}
